@@ -176,6 +176,14 @@ pub struct Mon {
     /// candidates the lookup learned of from answers it accepted (answer of a contacted peer that
     /// had neither answered nor failed before, delivered before the lookup finished)
     learned: HashSet<K32>,
+    /// peers for which any failure was delivered after they were contacted
+    failure_seen: HashSet<K32>,
+    /// answers delivered for contacted peers that had not answered before, since the last answer
+    /// that certainly made progress (see `note_answer`): the lookup's own ledger of "consecutive
+    /// successful results without progress", independent of the implementation's progress state
+    answers_without_progress: usize,
+    /// the ledger reached `parallelism` at some point: the lookup may have stalled
+    may_have_stalled: bool,
     pub fails: Vec<(String, String)>,
     /// design observations (reported under the signature prefix "note-C10", never a violation)
     pub notes: Vec<String>,
@@ -192,6 +200,9 @@ impl Mon {
             reported: vec![],
             failed: HashSet::new(),
             learned: HashSet::new(),
+            failure_seen: HashSet::new(),
+            answers_without_progress: 0,
+            may_have_stalled: par == 0,
             contacted: HashSet::new(),
             answered: HashSet::new(),
             outstanding: HashMap::new(),
@@ -227,6 +238,20 @@ impl Mon {
                 ),
             );
         }
+        // C09 with "stalled" as documented (no progress after `parallelism` consecutive successful
+        // results): without that many answers the bound is the parallelism
+        if waiting.max(d.num_waiting) > self.par && !self.may_have_stalled {
+            self.fail(
+                "C09",
+                format!(
+                    "{} requests in flight with parallelism {} although the lookup cannot have stalled: fewer than {} answers without progress were delivered ({} since the last progress)",
+                    waiting.max(d.num_waiting),
+                    self.par,
+                    self.par,
+                    self.answers_without_progress
+                ),
+            );
+        }
         // the monitor's own ledger: contacted, unanswered, request deadline not reached
         let live = self.outstanding.values().filter(|dl| **dl > now).count();
         if !bound_ok(live) {
@@ -251,6 +276,17 @@ impl Mon {
                     }
                     ProgressDump::Finished => self.fail("C09", "a finished lookup started a request".into()),
                 }
+                // the raised limit is only for a stalled lookup, and a lookup stalls by `parallelism`
+                // consecutive answers that bring no progress - failures and silence are no answers
+                if before.num_waiting >= self.par && self.answers_without_progress < self.par {
+                    self.fail(
+                        "C09",
+                        format!(
+                            "a new request was started with {} in flight (parallelism {}) although the lookup is not stalled: {} answers without progress since the last progress",
+                            before.num_waiting, self.par, self.answers_without_progress
+                        ),
+                    );
+                }
                 if !self.contacted.insert(p) {
                     self.fail("C09", "the same peer was contacted twice".into());
                 }
@@ -262,6 +298,36 @@ impl Mon {
             }
             QueryState::Finished => self.finished_by_itself = true,
             _ => {}
+        }
+    }
+    /// Ledger of answers for the documented meaning of "stalled"; `before` is the lookup's state
+    /// before the answer is delivered.  An answer counts when its peer was contacted and had not
+    /// answered before.  The count starts again after an answer that certainly made progress: the
+    /// lookup was waiting for it (contacted, no answer and no failure delivered since), it names at
+    /// least one peer, and the lookup knew fewer than `num_results` peers.
+    /// Returns whether the lookup was certainly waiting for this answer.
+    fn note_answer(&mut self, p: &K32, reps: &[(K32, bool)], before: &QueryDump<NodeId>) -> bool {
+        if matches!(before.progress, ProgressDump::Finished) || !self.contacted.contains(p) || self.answered.contains(p) {
+            return false;
+        }
+        let certainly_accepted = !self.failure_seen.contains(p);
+        if certainly_accepted && !reps.is_empty() && before.peers.len() < self.nres {
+            self.answers_without_progress = 0;
+        } else {
+            self.answers_without_progress += 1;
+            if self.answers_without_progress >= self.par {
+                self.may_have_stalled = true;
+            }
+        }
+        certainly_accepted
+    }
+    /// C10, "every candidate it learned of": after an answer the lookup was waiting for, every peer
+    /// named in it is held by the lookup as a candidate (a candidate it drops can never be contacted)
+    fn learned_are_held(&mut self, reps: &[(K32, bool)], after: &QueryDump<NodeId>) {
+        let held: HashSet<K32> = after.peers.iter().map(|x| x.id.raw()).collect();
+        let lost = reps.iter().filter(|(k, _)| !held.contains(k)).count();
+        if lost > 0 {
+            self.fail("C10", format!("{} of the {} peers named in an answer the lookup was waiting for are not among its candidates afterwards", lost, reps.len()));
         }
     }
     fn on_success(&mut self, p: &K32, reps: &[(K32, bool)]) {
@@ -277,6 +343,9 @@ impl Mon {
         self.reported.extend(reps.iter().cloned());
     }
     fn on_failure(&mut self, p: &K32) {
+        if self.contacted.contains(p) {
+            self.failure_seen.insert(*p);
+        }
         if self.contacted.contains(p) && !self.answered.contains(p) {
             self.failed.insert(*p);
         }
@@ -441,10 +510,16 @@ impl QGen {
     }
     /// 0..6 reported peers: new (closer / farther / anywhere), duplicate, the target, the reporter
     fn reports(&mut self, rng: &mut Rng, reporter: &K32, hist: &mut Hist) -> Vec<(K32, bool)> {
-        let n = match rng.below(6) {
-            0 => 0,
+        // now and then an answer with more records than a bucket holds (the service hands over up to
+        // max_nodes_response records plus the rest of the last NODES packet)
+        let n = match rng.below(12) {
+            0 | 1 => 0,
+            2 => rng.range(15, 22),
             _ => rng.range(0, 6),
         } as usize;
+        if n > 16 {
+            hist.add("report:more_than_16_records");
+        }
         let mut v = vec![];
         for _ in 0..n {
             let flag = rng.chance(3, 5);
@@ -728,6 +803,9 @@ pub fn run_sm_case(id: u64, rng: &mut Rng, thorough: bool, hist: &mut Hist) -> C
                 e.n(0);
                 match &call {
                     Call::Success(p, reps) => {
+                        if mon.note_answer(p, reps, &before) {
+                            mon.learned_are_held(reps, &d);
+                        }
                         mon.on_success(p, reps);
                         emitted.retain(|x| x != p);
                         done.push(*p);
@@ -1028,6 +1106,14 @@ pub fn run_pool_case(id: u64, rng: &mut Rng, _thorough: bool, hist: &mut Hist) -
                 if present {
                     if let Some(q) = qs.get_mut(&qid) {
                         if c == 1 {
+                            if let Some((_, bd)) = before.get(&qid) {
+                                if q.mon.note_answer(&p, &reps, bd) {
+                                    let after = pool_dumps(&pool);
+                                    if let Some((_, ad)) = after.get(&qid) {
+                                        q.mon.learned_are_held(&reps, ad);
+                                    }
+                                }
+                            }
                             q.mon.on_success(&p, &reps);
                         } else {
                             q.mon.on_failure(&p);
